@@ -46,7 +46,7 @@ func runGCommit(c *Ctx) {
 	for s := 0; s < c.pick(6, 40); s++ {
 		gNothingScenario(c, sh, 1000+s)
 	}
-	for s := 0; s < c.pick(12, 80); s++ {
+	for s := 0; s < c.pick(18, 90); s++ {
 		gSingleFlight(c, sh, s)
 	}
 }
@@ -801,7 +801,10 @@ func gSingleFlight(c *Ctx, sh *shard, scen int) {
 	eng, err := bs.NewBloomSearchEngine(cfg, lm, fs)
 	must(err)
 
-	blockKind := []string{"Iter", "CreateFile", "OpenFile", "Read", "Write", "Close", "Update", "Tombstone"}[c.intn(8)]
+	// every call kind gets its turn (the post-commit cleanup, "Tombstone", twice per round of eight: it is where
+	// the single-flight section ends)
+	blockKind := []string{"Tombstone", "Iter", "CreateFile", "OpenFile", "Read", "Tombstone", "Write", "Close", "Update"}[scen%9]
+	c.intn(8) // keeps the random stream of the later draws as it was
 	failFirst := c.chance(0.3) && blockKind != "Tombstone" && blockKind != "Iter" // the blocked Merge then fails at that call
 	var mu sync.Mutex
 	var events []string
